@@ -5,7 +5,7 @@
    schedule.  [stored s] = the values passed to Update so far (newest first),
    [flags s] = the number of completed updates, [log s] = deliveries (newest first). *)
 From Coq Require Import ZArith List Bool Arith.
-From Tally Require Import Model.Gauge Proof.GaugeP.
+From Tally Require Import Model.Gauge Proof.GaugeP Model.Gauge2 Proof.Gauge2P.
 Import ListNotations.
 
 Theorem C02_delivered_was_updated : forall ths sched,
@@ -47,3 +47,52 @@ Example C02_example :
                [0; 0; 1; 0; 1; 0; 2; 2; 1; 2] in
   log s = [9; 9]%Z /\ updated s = false /\ nload s = 0 /\ flags s = 2.
 Proof. vm_compute. repeat split. Qed.
+
+(* ---- the delivery split from the load (Model/Gauge2.v) ----
+   In the model above "load curr; deliver" is one step, so [log] is the order of the loads.  In the
+   code the pass loads the value and then calls the reporter, which records it later; a pass parked
+   inside the reporter holds its value in its hands ([R2Deliver n v]).  [loads] is the log of the
+   model above, [dlog] what the reporter has received, in the order it received it.  The split model
+   erases to the model above step for step, the delivery steps dropping out: *)
+Theorem C02_split_refines : forall sched s, base (run2 s sched) = run (base s) (bsched s sched).
+Proof. exact base_run. Qed.
+Print Assumptions C02_split_refines.
+
+Theorem C02_split_delivered_was_updated : forall ths, forallb init_thr2 ths = true -> forall sched,
+  let s := run2 (init2 ths) sched in forall v, In v (dlog s) -> In v (stored2 s).
+Proof. exact delivered2_was_updated. Qed.
+Print Assumptions C02_split_delivered_was_updated.
+
+Theorem C02_split_deliveries_le_updates : forall ths, forallb init_thr2 ths = true -> forall sched,
+  let s := run2 (init2 ths) sched in length (dlog s) <= flags2 s.
+Proof. exact deliveries2_le_updates. Qed.
+Print Assumptions C02_split_deliveries_le_updates.
+
+(* freshness, for every schedule, also with passes parked inside the reporter: once the updates have
+   stopped, no pass is between its swap and its load and the flag is down, the newest load is the last
+   update, and the reporter has received that value or a pass holds exactly that value in its hands;
+   when no pass holds anything the reporter has received it *)
+Theorem C02_split_fresh : forall ths, forallb init_thr2 ths = true -> forall sched,
+  let s := run2 (init2 ths) sched in
+  alldone2 s -> nload2 s = 0 -> updated2 s = false -> stored2 s <> [] ->
+  let last := hd 0%Z (stored2 s) in
+  hd_error (loads s) = Some last /\
+  (In last (dlog s) \/ exists n, In (T2R (R2Deliver n last)) (thr2 s)) /\
+  (ndeliv s = 0 -> In last (dlog s)).
+Proof. exact fresh2. Qed.
+Print Assumptions C02_split_fresh.
+
+Theorem C02_split_no_redelivery : forall s1 sched,
+  J s1 -> alldone2 s1 -> nload2 s1 = 0 -> ndeliv s1 = 0 -> updated2 s1 = false ->
+  dlog (run2 s1 sched) = dlog s1.
+Proof. exact no_redelivery2. Qed.
+Print Assumptions C02_split_no_redelivery.
+
+(* non-vacuity: updates 7 then 9; pass 1 loads 7 and is parked inside the reporter; the second update;
+   pass 2 starts afterwards and completes: the reporter has received 9, pass 1 still holds 7 *)
+Example C02_split_example :
+  let s := run2 (init2 [T2U (UIdle [7; 9]%Z); T2R (R2Idle 1); T2R (R2Idle 1)])
+                [0; 0; 1; 1; 0; 0; 2; 2; 2] in
+  dlog s = [9]%Z /\ loads s = [9; 7]%Z /\ nth_error (thr2 s) 1 = Some (T2R (R2Deliver 0 7%Z)) /\
+  updated2 s = false /\ nload2 s = 0 /\ ndeliv s = 1 /\ J s.
+Proof. cbv zeta. repeat (split; [vm_compute; reflexivity|]). apply j_run, j_init. reflexivity. Qed.
